@@ -463,7 +463,7 @@ func (fr *Frame) safe(st *State, kind string, cond Term, in ssa.Instruction, des
 	if cond.S == "true" {
 		return
 	}
-	if !vc.nosafe {
+	if !vc.nosafe && !vc.nosafeKinds[kind] {
 		n := vc.ordinal("safe:" + fr.path + kind)
 		vc.addObl(&Obligation{Name: fr.oblName("safe", fmt.Sprintf("%s@%d", kind, n)), Kind: "safe", Reach: st.reach, Cond: cond,
 			Taint: st.taint, Pos: fr.pos(in.Pos()), Descr: descr})
@@ -1736,6 +1736,16 @@ func (fr *Frame) enterLoop(li *loopInfo, pre *State, phis []*ssa.Phi, phiEntry m
 				continue
 			}
 			hs.assume(t)
+		}
+		for _, u := range li.spec.Uses {
+			env := fr.loopEnv(li, hs, li.phiHavoc)
+			t, err := env.lemmaInstance(u)
+			if err != nil {
+				vc.note("contract error: loop %s uses: %v", li.spec.Key, err)
+				continue
+			}
+			hs.assume(t)
+			vc.assume("lemma instance assumed at a loop head (the lemma is proved as obligations of its own): " + u.String())
 		}
 		if li.spec.Decreases != nil {
 			env := fr.loopEnv(li, hs, li.phiHavoc)
